@@ -7,7 +7,7 @@ the construct); the `path:line:col:` prefix of the first diagnostic must be the 
 the generator put the offending construct, and the snippet must show that source line."""
 import re
 
-from .. import build, coqcheck, impl, model, planted, report, sexp
+from .. import build, coqcheck, impl, model, planted, report, sexp, snippet
 
 SHELLS = planted.SHELLS
 
@@ -96,6 +96,12 @@ def run(ctx, res):
             sp = first.index(' ')
             stmts = [first[:sp + 1] + '[' + esc + '] ' + first[sp + 1:]] + stmts[1:] if not first.startswith('<') else stmts
             escape_first = not first.startswith('<')
+        if r.random() < 0.3 and c['kind'] != 'varying_names' and not stmts[0].startswith('<'):
+            # multi-byte characters (a description) early in the file: byte columns run ahead of character columns
+            first = stmts[0]
+            sp = first.index(' ')
+            desc = '\xc3\xa9' * r.randint(1, 14)
+            stmts = [first[:sp + 1] + '[u8 "' + desc + '"] ' + first[sp + 1:]] + stmts[1:]
         text = planted.relayout(stmts, r, heavy=r.random() < 0.5).encode('latin-1')
         pos = planted.position_of(text, c['marker'])
         jobs.append(dict(text=text, shell=sh))
@@ -160,22 +166,8 @@ def run(ctx, res):
 
 
 # ---- tie of Model/Diag.v (what main.rs prints for a located message) to the real binary --------------------
-BLOCK = re.compile(rb'^(?P<path>[^\n:]*):(?P<line>\d+):(?P<col>\d+):(?P<kind>error|warning)(?:: (?P<label>[^\n]*))?\n'
-                   rb'(?P<gut> *)\|\n'
-                   rb' *(?P<no>\d+) \| (?P<src>[^\n]*)\n'
-                   rb' *\| (?P<pad> *)(?P<marks>[\^-]+)(?: (?P<what>[^\n]*))?\n'
-                   rb' *\|\n'
-                   rb'(?: *= help: (?P<help>[^\n]*)\n)?', re.M)
-
-
 def stderr_blocks(stderr):
-    out = []
-    for m in BLOCK.finditer(stderr):
-        d = {k: (v.decode('latin-1') if v is not None else None) for k, v in m.groupdict().items()}
-        out.append(dict(header='%s:%s:%s:' % (d['path'], d['line'], d['col']), warning=d['kind'] == 'warning',
-                        label=d['label'] or '', no=int(d['no']), src=d['src'], start=len(d['pad']), width=len(d['marks']),
-                        what=d['what'] or '', help=d['help'], path=d['path']))
-    return out
+    return snippet.blocks(stderr)
 
 
 def payload_of(st):
@@ -219,6 +211,7 @@ def render_tie(res, meta, bins):
         idx.append((k, blocks))
     outs = model.run(reqs)
     tied = 0
+    line_kinds = {}
     for (k, blocks), o, rq in zip(idx, outs, reqs):
         m = meta[k]
         try:
@@ -237,16 +230,20 @@ def render_tie(res, meta, bins):
                     problems.append('message %d: model render gives %s' % (j, sexp.dump(rd)[:100]))
                     continue
                 header, no, line, cs, ce = str(rd[1]), int(rd[2]), str(rd[3]), int(rd[4]), int(rd[5])
-                want = dict(header=header, warning=(w == 'w'), label=str(label), no=no, what=str(what),
+                want = dict(header=header, warning=(w == 'w'), label=str(label), no=no,
                             help=(None if hlp == '-' else str(hlp)))
                 got = {f: bl[f] for f in want}
                 if got != want:
                     problems.append('message %d: printed %r, model %r' % (j, got, want))
-                plain = all(32 <= ord(ch) < 127 for ch in line)
-                if plain and (bl['src'].rstrip(' ') != line.rstrip(' ')):
+                # the quoted line verbatim (tab, form feed, CR, non-ASCII included) and the annotation line that
+                # annotate-snippets draws from the model's byte columns (snippet.annotation)
+                if bl['src'].rstrip(' ') != line.rstrip(' '):
                     problems.append('message %d: quoted line %r, model %r' % (j, bl['src'], line))
-                if plain and (bl['start'], bl['width']) != (cs, ce - cs):
-                    problems.append('message %d: underline at %d+%d, model %d+%d' % (j, bl['start'], bl['width'], cs, ce - cs))
+                ann = snippet.annotation(line, cs, ce, w == 'w', str(what))
+                if not snippet.same_annotation(bl['ann'], ann):
+                    problems.append('message %d: annotation line %r, from the model columns %d..%d: %r' % (j, bl['ann'], cs, ce, ann))
+                kd = snippet.kind_of(line, cs, ce)
+                line_kinds[kd] = line_kinds.get(kd, 0) + 1
         if problems:
             res.violations.append(report.Violation(
                 'tie broken at stage diag (Model/Diag.v vs the messages the binary prints): ' + '; '.join(problems[:3]),
@@ -256,6 +253,7 @@ def render_tie(res, meta, bins):
         else:
             tied += 1
     res.extra['diag_render_tied'] = tied
+    res.extra['diag_render_quoted_lines'] = line_kinds
     res.extra['diag_render_requests'] = len(reqs)
 
 
